@@ -82,8 +82,7 @@ pub fn crypto_secretbox_open_detached(
     key: &Key,
 ) -> Result<(), Error> {
     let c_len = ciphertext.len();
-    message[..c_len].copy_from_slice(ciphertext);
-    crypto_secretbox_open_detached_inplace(message, mac, nonce, key)
+    crypto_secretbox_open_detached_to(&mut message[..c_len], mac, ciphertext, nonce, key)
 }
 
 /// Encrypts `message` with `nonce` and `key`.
